@@ -1248,6 +1248,11 @@ func execWire(f []string) string {
 		if f[0] == "wwd" {
 			cmd = "unregister"
 		}
+		// at a moment when no handler goroutine of the routers is running (virtual time stands still during the op):
+		// an announcement that OVERLAPS an incoming prefix-sync update runs into the Router.mutex / SvSync.mutex
+		// order inversion reported in round 12 (design/_deviations.md, C19-a) - a race this harness cannot force
+		// and must not hit by accident
+		synctest.Wait()
 		return "ok" + readvertise(sim.Nodes[x], cmd, pfxName(id))
 	case "wrun":
 		if len(f) != 6 {
